@@ -92,6 +92,12 @@ func nearMissWorkload(c *Ctx, f func(entry, input string)) {
 		}
 		gen.SystematicEdits(txt, emit)
 		gen.SystematicMoves(txt, emit)
+		for _, w := range []int{13, 70} {
+			gen.WidenLists(txt, w, func(m string) {
+				emit(m)
+				c.Count("widened_list_inputs", 1)
+			})
+		}
 		if len(txt) <= 1200 {
 			gen.SystematicDuplicates(txt, emit)
 		}
@@ -111,6 +117,12 @@ func nearMissWorkload(c *Ctx, f func(entry, input string)) {
 		}
 		for _, pre := range gen.HostilePrefixes {
 			emit(pre + cc.Text)
+		}
+		if len(cc.Text) <= 3000 {
+			gen.WidenLists(cc.Text, 17, func(m string) {
+				emit(m)
+				c.Count("widened_list_inputs", 1)
+			})
 		}
 		if len(cc.Text) <= 600 {
 			gen.SystematicDuplicates(cc.Text, emit)
